@@ -37,8 +37,17 @@ package peers
 //@   modifies q.items
 //@   ensures !$QueueLocked && ($PoolLocked <==> old($PoolLocked))
 
+// Status transitions ("a peer put on cool-down is not offered again before the cool-down elapses"):
+// only putOnCooldown takes a peer from active to cool-down and only afterCooldown - the expiry callback
+// of the cool-down queue - takes it back; add revives removed or unknown peers only; nothing else
+// touches the status of a peer on cool-down except remove.
+//@ pure func onCooldown(p *pool, id peer.ID) bool = has(p.statuses, id) && p.statuses[id] == cooldown
+
 //@ func (*pool).putOnCooldown
 //@   property C17
+//@   ensures forall id peer.ID :: id != peerID ==> has(p.statuses, id) == old(has(p.statuses, id)) && p.statuses[id] == old(p.statuses[id])
+//@   ensures old(activeIn(p, peerID)) ==> onCooldown(p, peerID)
+//@   ensures !old(activeIn(p, peerID)) ==> has(p.statuses, peerID) == old(has(p.statuses, peerID)) && p.statuses[peerID] == old(p.statuses[peerID])
 //@   requires !$PoolLocked && !$QueueLocked
 //@   requires p.activeCount == countEq(p.statuses, active) && p.cooldown != nil
 //@   modifies p
@@ -51,6 +60,8 @@ package peers
 // The cool-down expiry callback takes the pool lock, so it must never run under the queue lock.
 //@ func (*pool).afterCooldown
 //@   property C17
+//@   ensures forall id peer.ID :: id != peerID ==> has(p.statuses, id) == old(has(p.statuses, id)) && p.statuses[id] == old(p.statuses[id])
+//@   ensures !old(onCooldown(p, peerID)) ==> has(p.statuses, peerID) == old(has(p.statuses, peerID)) && p.statuses[peerID] == old(p.statuses[peerID])
 //@   requires !$PoolLocked && !$QueueLocked
 //@   requires p.activeCount == countEq(p.statuses, active)
 //@   modifies p
@@ -87,7 +98,11 @@ package peers
 //@   modifies p.statuses
 //@   modifies p.peersList
 //@   ensures p.activeCount == countEq(p.statuses, active)
+//@   ensures forall id peer.ID :: old(onCooldown(p, id)) ==> onCooldown(p, id)
+//@   ensures forall id peer.ID :: old(activeIn(p, id)) ==> activeIn(p, id)
 //@   loop 1: invariant p.activeCount == countEq(p.statuses, active) && p.statuses == old(p.statuses) && $PoolLocked && !$QueueLocked
+//@   loop 1: invariant forall id peer.ID :: old(onCooldown(p, id)) ==> onCooldown(p, id)
+//@   loop 1: invariant forall id peer.ID :: old(activeIn(p, id)) ==> activeIn(p, id)
 
 //@ func (*pool).cleanup
 //@   property C17
